@@ -617,3 +617,10 @@ for _id, _src, _impl, _field, _ctor in (("array.exec", "src/instruction/array.rs
               f"Ok(vs) => r is Ok && r->Ok_0 is {_ctor} && r->Ok_0->{_ctor}_0.elems@ == vs, "
               f"Err(e) => r == Err::<Variable, ExecStop>(e) }})"),
          ])
+
+# ---------------------------------------------------------------- slicing bound conversion ---
+unit(id="slicing.to_bound", src="src/instruction/slicing.rs", path=[("impl", "Slicing"), ("fn", "to_bound")], impl="Slicing",
+     ensures=[
+         ("slicing.to_bound.never_isize_min", ["C09"], "r > isize::MIN"),
+         ("slicing.to_bound.identity_above_min", ["C09"], "index > i64::MIN ==> r as int == index as int"),
+     ])
